@@ -528,10 +528,18 @@ Theorem C03_P_hist_no_twice_sound : forall c init ops snaps al pl,
 Proof. exact P_hist_no_twice. Qed.
 Print Assumptions C03_P_hist_no_twice_sound.
 
-Theorem C03_agree_transfers_no_slot_twice : forall c h ae ops snaps al pl reorg,
-  agree_hist c (Some (h, ae)) ops snaps al pl reorg = true ->
+Theorem C03_agree_transfers_no_slot_twice : forall c init ops snaps al pl reorg,
+  agree_hist c init ops snaps al pl reorg = true ->
   0 < ct_spe (c_ct c) -> bounded c 0 ->
-  hist_ok shadowed c 0 (init_state h ae) ops ->
+  hist_ok shadowed c 0 (init_of c init) ops ->
   NoDup (map fst al) /\ NoDup (map fst pl).
 Proof. exact agree_transfers_no_slot_twice. Qed.
 Print Assumptions C03_agree_transfers_no_slot_twice.
+
+(* for a case the harness declares well-formed, [agree] checks the discipline itself (hist_ok_b),
+   so agreement with the model alone implies that the real controller served no slot twice *)
+Theorem C03_agree_wf_case_no_slot_twice : forall id c init ops snaps al pl reorg,
+  agree {| c_id := id; c_body := BHist c init ops snaps al pl reorg true |} = true ->
+  NoDup (map fst al) /\ NoDup (map fst pl).
+Proof. exact agree_wf_case_no_slot_twice. Qed.
+Print Assumptions C03_agree_wf_case_no_slot_twice.
